@@ -41,6 +41,17 @@ Theorem C06_aa_unclipped_vertish_walk_inside_clip :
   forall x y a, In (x, y, a) out -> cl <= x < cr /\ ct <= y < cb /\ 0 < a.
 Proof. exact walk_vertish_inside_clip. Qed.
 
+(* THE statement for the route WITH an integer sub-clip (every segment that is not completely inside the pixmap takes it):
+   whatever do_anti_hairline does -- subdivide, adjust the start to the clip edge, keep the clipping blitter or drop it because
+   its own bounds say the segment is inside -- every pixel it writes is inside the clip, for all FDot6 end points, in the
+   semantics of an overflow-checked build (None = panic) *)
+Theorem C06_aa_clipped_route_inside_clip :
+  forall fuel x0 y0 x1 y1 cl ct cr cb out,
+  0 <= cl -> 0 <= ct ->
+  do_anti_hairline fuel x0 y0 x1 y1 (Some (cl, ct, cr, cb)) = Some out ->
+  forall x y a, In (x, y, a) out -> cl <= x < cr /\ ct <= y < cb /\ 0 < a.
+Proof. exact do_anti_hairline_clipped_inside. Qed.
+
 (* the known finding C06-aa-hairline-top-left-fold as a theorem about the model: when the segment starts above the pixmap the
    accumulator is clamped to 0 and the REST of the segment leaves its ideal rows (witness: slope 1/2 from y = -1.25; column 5 is
    drawn on row 2 where the line passes at y = 1.75) *)
